@@ -63,7 +63,7 @@ type item struct {
 	open   bool // first half of `var a, b = x, y`, waiting for the second
 }
 
-var indirectKinds = []string{"func", "chain", "method", "ptrmethod", "methodval", "methodexpr", "funcref", "cycle", "cycle", "recvcall"}
+var indirectKinds = []string{"func", "chain", "method", "ptrmethod", "methodval", "methodexpr", "funcref", "cycle", "cycle", "cycle", "recvcall"}
 
 // receiverKinds: the variable is read by the receiver operand of a method call
 // or method value written in the initialiser itself (a reference as visible as
@@ -610,6 +610,7 @@ func (g *gen) render(p *gpkg) {
 	// reaches 0 and calls B otherwise, B(n) calls A. Several initialisers enter
 	// the same cycle at different functions.
 	cycleFor := map[int][2]string{}
+	cycleFirst := map[int]int{} // dep -> function the cycle was entered at first
 	cycleCall := func(dep int, r string) string {
 		c, ok := cycleFor[dep]
 		if !ok {
@@ -619,12 +620,17 @@ func (g *gen) render(p *gpkg) {
 			helpers = append(helpers, item{text: fmt.Sprintf("func %s(n int) int {\n\tif n <= 0 {\n\t\treturn 0\n\t}\n\treturn %s(n - 1)\n}\n", c[1], c[0])})
 			g.classes["edge:cycle-entered-first"] = true
 			if pct(t, "cyclefirst") < 50 {
+				cycleFirst[dep] = 0
 				return c[0] + "(2)"
 			}
+			cycleFirst[dep] = 1
 			return c[1] + "(1)"
 		}
 		g.classes["edge:cycle-entered-again"] = true
-		if pct(t, "cycleagain") < 50 {
+		// a later initialiser mostly enters the cycle at the other function
+		other := pct(t, "cycleagain") < 70
+		if (cycleFirst[dep] == 0) == other {
+			g.classes["edge:cycle-entered-at-the-other-function"] = true
 			return c[1] + fmt.Sprintf("(%d)", 1+2*rapid.IntRange(0, 1).Draw(t, "cyclen"))
 		}
 		return c[0] + fmt.Sprintf("(%d)", 2*rapid.IntRange(0, 2).Draw(t, "cyclen"))
